@@ -27,7 +27,7 @@ EXPLANATION = (
     'arguments with alias over name (name forwarded when both are present). The real registries are enumerated '
     'exhaustively (finite) against an independent oracle. Nested JSON-round-tripped configurations are compared with '
     'explicit construction on a grid of real computers (state equality and bit-identical features).')
-BOUNDS = {'quick': 'CrossHair: alias strings up to 7 characters, 40 s per condition; from_arg: all combinations of {alias, name, extra kw} x alias values; registry: all classes and, per family, every near miss of a registered alias (other letter case, surrounding blanks / newline, one character more or less, empty string); nested configs: 24 trees',
+BOUNDS = {'quick': 'CrossHair: alias strings up to 7 characters, 40 s per condition; from_arg: all combinations of {alias, name, extra kw} x alias values; registry: all classes and, per family, every near miss of a registered alias (other letter case, surrounding blanks / newline, one character more or less, empty string); lookup history: 0-2 earlier lookups (5 alias values, through the family root or a concrete class) x late registration below a concrete class with / without a sibling of the root in between x final lookup; nested configs: 24 trees',
           'thorough': 'CrossHair 150 s per condition, strings up to 8 characters; 96 trees'}
 OUTSIDE = ['the JSON / YAML parsers themselves', 'global registration order across siblings of different parents (the implementation resolves depth-first, most recent sibling first; probe hierarchies are chosen where both readings agree)']
 ASSUMPTIONS = ['CrossHair "Confirmed over all paths" is a bounded claim (string length, path budget); any other CrossHair verdict is inconclusive',
